@@ -35,6 +35,13 @@ type c09Case struct {
 	// closed: a close inside a header or a body is still a close
 	Partial int   `json:"partial,omitempty"`
 	Cuts    []int `json:"cuts,omitempty"`
+	// Busy: the stimulus is pipelined, in one stream, behind the message that
+	// brings the connection into the state (the OPEN, for OpenConfirm) or behind a
+	// well-formed UPDATE (Established), whose plugin callback busy-waits: the
+	// reader runs ahead of the FSM goroutine
+	Busy bool `json:"busy,omitempty"`
+	// ThenFin: the remote closes right behind an illegal message, in the same burst
+	ThenFin bool `json:"then_fin,omitempty"`
 }
 
 var stimTypes = map[string]uint8{"open": 1, "update": 2, "notification": 3, "keepalive": 4}
@@ -57,7 +64,7 @@ func c09Prop(t *testing.T, r *hx.Run, sub string) func(c c09Case) hx.Verdict {
 			dir = "out"
 		}
 		v := hx.Verdict{Class: fmt.Sprintf("%s/%s/%s", c.State, c.Stim, dir)}
-		v.NT = fmt.Sprintf("%s/%s/%s/%v/%x/%d/%d/%v/%d", c.State, c.Stim, dir, c.Notif, []byte(c.Raw), c.UpdLen, c.Hold, c.Prev, c.Partial)
+		v.NT = fmt.Sprintf("%s/%s/%s/%v/%x/%d/%d/%v/%d/%v/%v", c.State, c.Stim, dir, c.Notif, []byte(c.Raw), c.UpdLen, c.Hold, c.Prev, c.Partial, c.Busy, c.ThenFin)
 		p := basePeer(c.Out)
 		var dev *hx.Dev
 		fail := func(key, f string, a ...any) {
@@ -66,6 +73,11 @@ func c09Prop(t *testing.T, r *hx.Run, sub string) func(c c09Case) hx.Verdict {
 			}
 		}
 		p.IdleHoldMs, p.ConnRetryMs = 100, 1000
+		busy := c.Busy && (c.State == stOpenConfirm || c.State == stEstablished) && c.Stim != "fin" && c.Stim != "rst" && c.Partial == 0
+		if busy {
+			p.Plugin.SpinUs = map[string]int64{"open": 300, "upd": 300}
+			v.Class += "/busy"
+		}
 		var serr error
 		o := world.Run(t, func() {
 			w, err := world.New("10.0.0.1", nil)
@@ -115,9 +127,18 @@ func c09Prop(t *testing.T, r *hx.Run, sub string) func(c c09Case) hx.Verdict {
 				return
 			}
 			func() {
-				for _, m := range handshakeBytes(p, conn, c.State, 90) {
+				hs := handshakeBytes(p, conn, c.State, 90)
+				var lead []byte // sent in one stream with the stimulus
+				if busy && c.State == stOpenConfirm {
+					lead, hs = hs[len(hs)-1], hs[:len(hs)-1]
+				}
+				for _, m := range hs {
 					conn.RemoteSend(m, nil)
 					w.Settle()
+				}
+				busyUpd := taggedUpdate(0xD2000000, 17)
+				if busy && c.State == stEstablished {
+					lead = wire.Frame(wire.TypeUpdate, busyUpd)
 				}
 				before, perr := world.Parsed(conn)
 				if perr != nil {
@@ -134,7 +155,9 @@ func c09Prop(t *testing.T, r *hx.Run, sub string) func(c c09Case) hx.Verdict {
 					return n
 				}
 				estBefore := count("est+")
-				if (c.State == stEstablished) != (estBefore == len(c.Prev)+1) || (c.State != stEstablished && estBefore != len(c.Prev)) {
+				if busy && c.State == stOpenConfirm {
+					// the OPEN is still to come: the state right now is OpenSent
+				} else if (c.State == stEstablished) != (estBefore == len(c.Prev)+1) || (c.State != stEstablished && estBefore != len(c.Prev)) {
 					fail("setup-state", "could not reach %s (OnEstablished x%d)", c.State, estBefore)
 					return
 				}
@@ -171,8 +194,20 @@ func c09Prop(t *testing.T, r *hx.Run, sub string) func(c c09Case) hx.Verdict {
 						conn.RemoteReset()
 					}
 				}
+				legal := (c.State == stOpenSent && c.Stim == "open") ||
+					(c.State == stOpenConfirm && c.Stim == "keepalive") ||
+					(c.State == stEstablished && (c.Stim == "keepalive" || c.Stim == "update"))
+				thenFin := c.ThenFin && !legal && stim != nil && c.Stim != "notification"
 				if stim != nil {
-					conn.RemoteSend(stim, c.Cuts)
+					cuts := c.Cuts
+					if lead != nil {
+						cuts = nil
+						stim = append(append([]byte{}, lead...), stim...)
+					}
+					conn.RemoteSend(stim, cuts)
+					if thenFin {
+						conn.RemoteClose()
+					}
 				}
 				w.Settle()
 				msgs, perr := world.Parsed(conn)
@@ -181,10 +216,15 @@ func c09Prop(t *testing.T, r *hx.Run, sub string) func(c c09Case) hx.Verdict {
 					return
 				}
 				after := msgs[len(before):]
+				if busy && c.State == stOpenConfirm {
+					// the KEEPALIVE answering the pipelined OPEN comes first
+					if len(after) == 0 || after[0].Type != wire.TypeKeepalive {
+						fail("legal-open-refused", "valid OPEN in OpenSent (pipelined with a %s): corebgp sent %d messages (first type %v)", c.Stim, len(after), firstType(after))
+						return
+					}
+					after = after[1:]
+				}
 				st := conn.Snapshot()
-				legal := (c.State == stOpenSent && c.Stim == "open") ||
-					(c.State == stOpenConfirm && c.Stim == "keepalive") ||
-					(c.State == stEstablished && (c.Stim == "keepalive" || c.Stim == "update"))
 				wasEst := c.State == stEstablished
 				if legal {
 					switch {
@@ -205,6 +245,13 @@ func c09Prop(t *testing.T, r *hx.Run, sub string) func(c c09Case) hx.Verdict {
 							for _, e := range w.Rec.Events() {
 								if e.K == "upd+" {
 									got = append(got, e.Data)
+								}
+							}
+							if busy {
+								if len(got) == 2 && bytes.Equal(got[0], busyUpd) {
+									got = got[1:]
+								} else {
+									got = nil
 								}
 							}
 							if len(got) != 1 || !bytes.Equal(got[0], updBody) {
@@ -232,7 +279,11 @@ func c09Prop(t *testing.T, r *hx.Run, sub string) func(c c09Case) hx.Verdict {
 						}
 						fail("reply-to-notification-or-close", "%s in %s must end the connection silently, corebgp sent %d messages (first type %d %v)", c.Stim, c.State, len(after), after[0].Type, n)
 					}
-					if extra := len(st.Writes) - nwBefore; extra != 0 {
+					extra := len(st.Writes) - nwBefore
+					if busy && c.State == stOpenConfirm {
+						extra-- // the KEEPALIVE answering the pipelined OPEN
+					}
+					if extra != 0 {
 						fail("reply-to-notification-or-close", "%s in %s must end the connection silently, corebgp attempted %d writes afterwards", c.Stim, c.State, extra)
 					}
 				default:
@@ -286,7 +337,7 @@ func TestC09(t *testing.T) {
 
 	// the complete table: state x stimulus x direction
 	stims := []string{"open", "update", "notification", "keepalive", "fin", "rst"}
-	hx.Enum(r, t, "state_x_message_x_direction", int64(len(allStates)*len(stims)*2*3), iter.Seq[c09Case](func(yield func(c09Case) bool) {
+	hx.Enum(r, t, "state_x_message_x_direction", 0, iter.Seq[c09Case](func(yield func(c09Case) bool) {
 		for _, st := range allStates {
 			for _, s := range stims {
 				for _, out := range []bool{false, true} {
@@ -297,6 +348,15 @@ func TestC09(t *testing.T) {
 						}
 						if !yield(c) {
 							return
+						}
+						if s != "fin" && s != "rst" && len(prev) < 2 {
+							for _, bf := range [][2]bool{{true, false}, {false, true}, {true, true}} {
+								c2 := c
+								c2.Busy, c2.ThenFin = bf[0], bf[1]
+								if !yield(c2) {
+									return
+								}
+							}
 						}
 					}
 					if s == "fin" || s == "rst" {
@@ -354,6 +414,8 @@ func TestC09(t *testing.T) {
 				c.Prev = append(c.Prev, pick(rt, "prevend", "cease", "fin"))
 			}
 		}
+		c.Busy = rapid.IntRange(0, 2).Draw(rt, "busy") == 0
+		c.ThenFin = rapid.IntRange(0, 2).Draw(rt, "thenfin") == 0
 		return c
 	}, c09Prop(t, r, "generated"))
 }
